@@ -614,6 +614,44 @@ func c04AskerDeath(p *Program, r *Report) {
 		}
 	}
 	r.Check(okc, "pending asks are closed with the given error", firstPos(rg, cl), "the bulk-completion routine calls Close(err) with its error parameter")
+	// ... and only the asks of that asker: the routine reads the agent table exclusively through table[path] with its own
+	// path parameter (exact key) — never by iterating the whole table and matching paths some other way
+	var table *types.Var
+	st := lc.Sys.Underlying().(*types.Struct)
+	for i := 0; i < st.NumFields(); i++ {
+		if m, ok := st.Field(i).Type().Underlying().(*types.Map); ok {
+			if _, inner := m.Elem().Underlying().(*types.Map); inner {
+				table = st.Field(i)
+			}
+		}
+	}
+	if table == nil || len(f.RemoveBy.Params) < 2 {
+		r.Unresolved("agent table of the system / path parameter of the bulk-completion routine")
+		return
+	}
+	exact, uses := true, 0
+	var badPos token.Pos
+	for _, in := range rg.Nodes {
+		u, isLoad := in.(*ssa.UnOp)
+		if !isLoad || u.Op != token.MUL {
+			continue
+		}
+		if fl, _ := fieldAddr(u.X); fl != table {
+			continue
+		}
+		for _, ref := range *u.Referrers() {
+			uses++
+			lk, isLk := ref.(*ssa.Lookup)
+			if !isLk || strip(lk.Index) != ssa.Value(f.RemoveBy.Params[1]) {
+				exact = false
+				badPos = ref.Pos()
+			}
+		}
+	}
+	if badPos == token.NoPos {
+		badPos = f.RemoveBy.Pos()
+	}
+	r.Check(exact && uses > 0, "only the dying actor's asks are completed", badPos, fmt.Sprintf("all %d uses of the agent table in the bulk-completion routine are lookups with the routine's own path parameter: asks of other (living) actors are never swept", uses))
 }
 
 func c04Address(p *Program, r *Report) {
